@@ -28,6 +28,14 @@ type Case struct {
 	// is itself a valid IPv6 address; both readings are accepted by the oracle.
 	AmbigPort bool `json:"ambiguous_port,omitempty"`
 
+	// Unhonourable: the address carries a port that no upstream can honour
+	// (outside 1..65535, empty, not a number). BadPort is the port text exactly
+	// as written, BadWhere says where ("url" | "dialaddr"), BadKind names the
+	// class. Such a case MUST be rejected by NewUpstream.
+	BadPort  string `json:"bad_port,omitempty"`
+	BadWhere string `json:"bad_where,omitempty"`
+	BadKind  string `json:"bad_kind,omitempty"`
+
 	DialKind string `json:"dial_kind"` // none | ip | ip-port | ipv6-bare | ipv6-bracket-port | host | host-port
 	DialHost string `json:"dial_host,omitempty"`
 	DialIsIP bool   `json:"dial_is_ip,omitempty"`
@@ -57,6 +65,29 @@ var hostClasses = []string{
 var portClasses = []string{"none", "random", "53", "853", "none", "1", "65535", "443", "random"}
 
 var dialKinds = []string{"ip", "ip-port", "ipv6-bare", "ipv6-bracket-port", "host", "host-port"}
+
+// ports that cannot be honoured (the url parser itself refuses signs, so those
+// are only written into dial_addr)
+var badPorts = []struct {
+	text, kind string
+	dialOnly   bool
+}{
+	{"65536", "port-above-65535", false},
+	{"65589", "port-above-65535", false},
+	{"66389", "port-above-65535", false},
+	{"65979", "port-above-65535", false},
+	{"70000", "port-above-65535", false},
+	{"99999", "port-above-65535", false},
+	{"131125", "port-above-65535", false},
+	{"4294967349", "port-above-65535", false},
+	{"4294968149", "port-above-65535", false},
+	{"18446744073709551669", "port-above-65535", false},
+	{"", "port-empty", false},
+	{"5x", "port-non-numeric", false},
+	{"dns", "port-non-numeric", false},
+	{"-1", "port-negative", true},
+	{"-65483", "port-negative", true},
+}
 
 func schemeName(s string) string {
 	if s == "" {
@@ -196,6 +227,18 @@ func genCases(seed int64, n int) []*Case {
 		} else {
 			c.DialKind = dialKinds[r.Intn(len(dialKinds))]
 		}
+		// every 7th case beyond the two systematic layers (7 is coprime to the
+		// scheme / host class cycle, so every scheme x host form gets its turn)
+		// carries a port that cannot be honoured
+		if i >= 2*layer && i%7 == 6 {
+			bp := badPorts[r.Intn(len(badPorts))]
+			c.BadPort, c.BadKind = bp.text, bp.kind
+			if bp.dialOnly || r.Intn(2) == 0 {
+				c.BadWhere = "dialaddr"
+			} else {
+				c.BadWhere = "url"
+			}
+		}
 		fill(r, c)
 		out = append(out, c)
 	}
@@ -287,6 +330,27 @@ func fill(r *rand.Rand, c *Case) {
 	}
 
 	// ---- port ----
+	if c.BadPort != "" || c.BadKind != "" {
+		if c.BadWhere == "url" && c.HostKind == "ipv6" && !c.Bracket {
+			// bare IPv6 + ":text" is ambiguous text, not a port: put the bad port into dial_addr
+			c.BadWhere = "dialaddr"
+		}
+		if c.BadWhere == "url" {
+			c.PortClass = "none"
+		} else {
+			// keep the rest of the configuration acceptable, so that the bad
+			// port is the only reason to refuse: no hostname dial_addr where the
+			// scheme demands an IP, no ambiguous url text
+			kinds := []string{"ip-port", "ipv6-bracket-port", "host-port"}
+			if !tlsBased(c.Scheme) {
+				kinds = kinds[:2]
+			}
+			c.DialKind = kinds[r.Intn(len(kinds))]
+			if c.HostKind == "ipv6" && !c.Bracket {
+				c.PortClass = "none"
+			}
+		}
+	}
 	switch c.PortClass {
 	case "none":
 	case "random":
@@ -311,6 +375,13 @@ func fill(r *rand.Rand, c *Case) {
 			return randPort(r)
 		}
 	}
+	dportText := func() string {
+		if c.BadWhere == "dialaddr" {
+			return c.BadPort // DialPort stays 0: there is no port that could be expected
+		}
+		c.DialPort = dport()
+		return strconv.Itoa(c.DialPort)
+	}
 	switch c.DialKind {
 	case "none":
 	case "ip", "ip-port":
@@ -322,8 +393,7 @@ func fill(r *rand.Rand, c *Case) {
 		}
 		c.DialHost, c.DialIsIP, c.DialAddr = d.String(), true, d.String()
 		if c.DialKind == "ip-port" {
-			c.DialPort = dport()
-			c.DialAddr += ":" + strconv.Itoa(c.DialPort)
+			c.DialAddr += ":" + dportText()
 		}
 	case "ipv6-bare", "ipv6-bracket-port":
 		var d netip.Addr
@@ -345,15 +415,13 @@ func fill(r *rand.Rand, c *Case) {
 		if c.DialKind == "ipv6-bare" {
 			c.DialAddr = txt
 		} else {
-			c.DialPort = dport()
-			c.DialAddr = "[" + txt + "]:" + strconv.Itoa(c.DialPort)
+			c.DialAddr = "[" + txt + "]:" + dportText()
 		}
 	case "host", "host-port":
 		h := hostLabel(r, id, "dial")
 		c.DialHost, c.DialAddr = h, h
 		if c.DialKind == "host-port" {
-			c.DialPort = dport()
-			c.DialAddr += ":" + strconv.Itoa(c.DialPort)
+			c.DialAddr += ":" + dportText()
 		}
 	default:
 		panic("dial kind " + c.DialKind)
@@ -416,6 +484,8 @@ func fill(r *rand.Rand, c *Case) {
 	}
 	if c.Port != 0 {
 		sb.WriteString(":" + strconv.Itoa(c.Port))
+	} else if c.BadWhere == "url" {
+		sb.WriteString(":" + c.BadPort)
 	}
 	sb.WriteString(c.Path)
 	c.Addr = sb.String()
@@ -549,8 +619,14 @@ func (c *Case) expect() Expect {
 	if e.HTTPPath == "" {
 		e.HTTPPath = "/"
 	}
+	if c.unhonourable() {
+		// nothing may be contacted at all: the only allowed outcome is rejection
+		e.Lit, e.Dests, e.Reachable = nil, nil, false
+	}
 	return e
 }
+
+func (c *Case) unhonourable() bool { return c.BadWhere != "" }
 
 // hostKey is the coarse written form used in violation keys.
 func (c *Case) hostKey() string {
